@@ -68,6 +68,9 @@ def run(ctx):
             return 'silent'
         if s.k == 'BinaryOperator' and s.op in ('<', '>', '<=', '>=', '==', '!='):
             l, r = s.children
+            if r.strip(casts=True).value == 0 and l.strip(casts=True).is_call and l.strip(casts=True).callee_qp == 'FIX8::Tickval::secs' and \
+                    not any(x.is_call and x.r.get('op') == '-' for x in l.walk()):
+                return 'log'       # `_last_received.secs() != 0`: "was anything ever received" - only chooses the log text
             if q.reads_member(s, S + '_last_sent') or q.reads_member(s, S + '_last_received'):
                 return 'time'
             if q.member_value_of(l, S + '_state') and r.strip(casts=True).value is not None:
@@ -92,24 +95,37 @@ def run(ctx):
     times = [(b, a, pol) for b, (c, a, pol) in cls.items() if c == 'time']
     ctx.check(len(times) == 2, 'R22.1', S + 'heartbeat_service#time-atoms', f.loc, 'exactly two timing decisions')
     A = {}
+    NEG = {}
     mixed = False
     for (b, a, pol) in times:
         s = a.strip(casts=True)
         l, r = s.children
         tsr = ts_reads(l)
         lhs_sent, lhs_recv = '_last_sent' in tsr, '_last_received' in tsr
-        shape = (any(x.is_call and x.callee_qp == 'FIX8::Tickval::secs' for x in l.walk()) and
-                 any(x.is_call and x.r.get('op') == '-' for x in l.walk()))
+        def shaped(e, depth=0):
+            if any(x.is_call and x.callee_qp == 'FIX8::Tickval::secs' for x in e.walk()) and any(x.is_call and x.r.get('op') == '-' for x in e.walk()):
+                return True
+            if depth < 2:
+                for x in e.walk():
+                    if x.is_call and x.callee_qp:
+                        for h in prog.fns(x.callee_qp):
+                            rr = [n for n in h.all_nodes() if n.k == 'ReturnStmt' and n.children]
+                            if h.tu is f.tu and len(rr) == 1 and shaped(rr[0].children[0], depth + 1):
+                                return True          # a helper computing (later - earlier).secs()
+            return False
+        shape = shaped(l)
         hb = any(x.is_call and x.callee_qp == 'FIX8::Connection::get_hb_interval' for x in r.walk())
         hb20 = any(x.is_call and x.callee_qp == 'FIX8::Connection::get_hb_interval20pc' for x in r.walk())
         if lhs_sent and not lhs_recv:
             A['A1'] = (b, pol)
-            ctx.check(s.op == '>=' and hb and not hb20 and shape, 'R22.1', S + 'heartbeat_service#A1.exact', a.loc,
+            NEG['A1'] = s.op == '<'            # `!(idle < H)` is the same test written negatively
+            ctx.check(s.op in ('>=', '<') and hb and not hb20 and shape, 'R22.1', S + 'heartbeat_service#A1.exact', a.loc,
                       'idle-send test is (now - _last_sent).secs() >= heartbeat interval',
                       'idle-send test is `%s` — expected (now - _last_sent).secs() >= get_hb_interval()' % a.text())
         elif lhs_recv and not lhs_sent:
             A['A2'] = (b, pol)
-            ctx.check(s.op == '>' and hb20 and not hb and shape, 'R22.1', S + 'heartbeat_service#A2.exact', a.loc,
+            NEG['A2'] = s.op == '<='
+            ctx.check(s.op in ('>', '<=') and hb20 and not hb and shape, 'R22.1', S + 'heartbeat_service#A2.exact', a.loc,
                       'idle-receive test is (now - _last_received).secs() > heartbeat interval + 20%',
                       'idle-receive test is `%s` — expected (now - _last_received).secs() > get_hb_interval20pc()' % a.text())
         else:
@@ -158,7 +174,7 @@ def run(ctx):
                 return truth == env['connected']
             if c == 'time':
                 key = 'A1' if A['A1'][0] == b else 'A2'
-                return truth == env[key]
+                return (truth != NEG.get(key, False)) == env[key]
             if isinstance(c, tuple):
                 key, positive = c
                 return (truth if positive else (not truth)) == env[key]
